@@ -167,4 +167,137 @@ theorem symbol_injective (d e : Fin 58)
   have := (List.getElem_inj alphabet_nodup).mp h
   exact Fin.ext this
 
+/-! ### canonical digit lists, and bytes without leading zeros (for injectivity without a length condition) -/
+
+
+theorem dval_lt (ds : List (Fin 58)) : dval ds < 58 ^ ds.length := by
+  induction ds with
+  | nil => simp [dval]
+  | cons d ds ih =>
+    simp only [dval, List.length_cons, Nat.pow_succ]
+    have := d.isLt
+    omega
+
+/-- same length and same value: the same digits -/
+theorem dval_inj_len : ∀ (a b : List (Fin 58)), a.length = b.length → dval a = dval b → a = b
+  | [], [], _, _ => rfl
+  | [], _ :: _, h, _ => by simp at h
+  | _ :: _, [], h, _ => by simp at h
+  | x :: a, y :: b, hl, h => by
+    simp only [dval] at h
+    have hx := x.isLt
+    have hy := y.isLt
+    have e : x = y := Fin.ext (by omega)
+    subst e
+    rw [dval_inj_len a b (by simpa using hl) (by omega)]
+
+/-- a canonical non-empty digit list is at least 58^(length-1) -/
+theorem canon_lower : ∀ (ds : List (Fin 58)), Canon ds → ds ≠ [] → 58 ^ (ds.length - 1) ≤ dval ds
+  | [], _, h => absurd rfl h
+  | [d], hc, _ => by
+    have := hc d (by simp)
+    simp [dval]; omega
+  | d :: e :: r, hc, _ => by
+    have hc' : Canon (e :: r) := by
+      intro x hx
+      exact hc x (by rw [List.getLast?_cons_cons]; exact hx)
+    have ih := canon_lower (e :: r) hc' (by simp)
+    simp only [dval, List.length_cons] at ih ⊢
+    have : 58 ^ (r.length + 1 + 1 - 1) = 58 * 58 ^ (r.length + 1 - 1) := by
+      have : r.length + 1 + 1 - 1 = (r.length + 1 - 1) + 1 := by omega
+      rw [this, Nat.pow_succ, Nat.mul_comm]
+    rw [this]
+    omega
+
+theorem canon_inj (a b : List (Fin 58)) (ha : Canon a) (hb : Canon b) (h : dval a = dval b) : a = b := by
+  have key : ∀ (a b : List (Fin 58)), Canon a → Canon b → dval a = dval b → ¬ a.length < b.length := by
+    intro a b _ hb h hlt
+    have hbne : b ≠ [] := by intro e; subst e; simp at hlt
+    have h1 := dval_lt a
+    have h2 := canon_lower b hb hbne
+    have h3 : 58 ^ a.length ≤ 58 ^ (b.length - 1) := Nat.pow_le_pow_right (by decide) (by omega)
+    omega
+  have h1 := key a b ha hb h
+  have h2 := key b a hb ha h.symm
+  exact dval_inj_len a b (by omega) h
+
+theorem canon_nil : Canon [] := by intro d hd; simp at hd
+
+theorem feedByte_canon (ds : List (Fin 58)) (b : UInt8) (hc : Canon ds) : Canon (feedByte ds b) := by
+  simp only [feedByte]
+  by_cases hp : pushCarry (mulAdd ds b.toNat).2 = []
+  · have h0 := pushCarry_eq_nil hp
+    rw [hp, List.append_nil]
+    by_cases hds : ds = []
+    · subst hds; simp only [mulAdd]; exact canon_nil
+    · exfalso
+      have hv := mulAdd_val ds b.toNat
+      rw [h0, Nat.mul_zero, Nat.add_zero] at hv
+      have h1 := dval_lt (mulAdd ds b.toNat).1
+      rw [mulAdd_length] at h1
+      have h2 := canon_lower ds hc hds
+      have hlen : 0 < ds.length := List.length_pos_iff.mpr hds
+      have h3 : 58 ^ ds.length = 58 * 58 ^ (ds.length - 1) := by
+        have : ds.length = (ds.length - 1) + 1 := by omega
+        rw [this, Nat.pow_succ, Nat.mul_comm]; simp
+      omega
+  · intro d hd
+    rw [List.getLast?_append, List.getLast?_eq_some_getLast hp] at hd
+    try simp only [Option.or_some] at hd
+    try simp only [Option.some_or] at hd
+    exact pushCarry_canon _ d (by rw [List.getLast?_eq_some_getLast hp]; exact hd)
+
+theorem digits_canon (bs : List UInt8) : ∀ ds, Canon ds → Canon (bs.foldl feedByte ds) := by
+  induction bs with
+  | nil => intro ds h; exact h
+  | cons b bs ih => intro ds h; exact ih _ (feedByte_canon ds b h)
+
+/-! ### bytes: leading zeros and the rest -/
+
+theorem bval_zero_cons (r : List UInt8) : bval (0 :: r) = bval r := by
+  simp [bval]
+
+/-- no leading zero byte -/
+def NoLead : List UInt8 → Prop
+  | [] => True
+  | x :: _ => x ≠ 0
+
+theorem nolead_lower : ∀ (r : List UInt8), NoLead r → r ≠ [] → 256 ^ (r.length - 1) ≤ bval r
+  | [], _, h => absurd rfl h
+  | x :: xs, hn, _ => by
+    rw [bval_cons]
+    have hx : 1 ≤ x.toNat := by
+      have : x.toNat ≠ 0 := fun e => hn (UInt8.toNat_inj.mp (by simpa using e))
+      omega
+    simp only [List.length_cons, Nat.add_sub_cancel]
+    have : 1 * 256 ^ xs.length ≤ x.toNat * 256 ^ xs.length := Nat.mul_le_mul_right _ hx
+    omega
+
+theorem nolead_inj (a b : List UInt8) (ha : NoLead a) (hb : NoLead b) (h : bval a = bval b) : a = b := by
+  have key : ∀ (a b : List UInt8), NoLead b → bval a = bval b → ¬ a.length < b.length := by
+    intro a b hb h hlt
+    have hbne : b ≠ [] := by intro e; subst e; simp at hlt
+    have h1 := bval_lt a
+    have h2 := nolead_lower b hb hbne
+    have h3 : 256 ^ a.length ≤ 256 ^ (b.length - 1) := Nat.pow_le_pow_right (by decide) (by omega)
+    omega
+  have h1 := key a b hb h
+  have h2 := key b a ha h.symm
+  exact bval_injective a b (by omega) h
+
+/-- a byte string is its leading zeros followed by a string without a leading zero of the same value -/
+theorem split_zeros : ∀ (a : List UInt8), ∃ r, a = List.replicate (a.takeWhile (· == 0)).length 0 ++ r ∧ NoLead r ∧ bval a = bval r
+  | [] => ⟨[], by simp, trivial, rfl⟩
+  | x :: xs => by
+    by_cases hx : x = 0
+    · subst hx
+      obtain ⟨r, h1, h2, h3⟩ := split_zeros xs
+      refine ⟨r, ?_, h2, ?_⟩
+      · simp only [List.takeWhile_cons, beq_self_eq_true, ite_true, List.length_cons, List.replicate_succ, List.cons_append]
+        rw [← h1]
+      · rw [bval_zero_cons, h3]
+    · refine ⟨x :: xs, ?_, hx, rfl⟩
+      have : (x == 0) = false := by simpa using hx
+      simp [this]
+
 end AnonModel.Tails
